@@ -19,8 +19,8 @@
 EXTENDS Mon_SaveStream, TLC
 CONSTANTS FlowTypes, Marked, Paths, Filters, MaxCfg,
           BadPaths,   \* TRUE: the environment may also try to set an unopenable path (SetFileBad)
-          OpenFirst   \* FALSE: the code as it is (old stream dropped before the new file is opened);
-                      \* TRUE: the repaired order proposed in findings_proposed/C39.md
+          OpenFirst   \* TRUE: the code since /repo commit e93d632de (the new file is opened first, the old stream is
+                      \* replaced only afterwards); FALSE: the code before it (old stream dropped before the open)
 VARIABLES optFile, filt, stream, curPath, active, files, pc, hasResp, hasErr, wsd, cfg, finished, mon, obs
 vars == <<optFile, filt, stream, curPath, active, files, pc, hasResp, hasErr, wsd, cfg, finished, mon, obs>>
 addon == <<optFile, filt, stream, curPath, active, files, cfg, finished>>
@@ -55,8 +55,8 @@ SetFile(p, app) ==
   /\ Live /\ cfg < MaxCfg /\ cfg' = cfg + 1
   /\ optFile' = p
   /\ IF curPath = p
-     THEN \* nothing is reopened.  After SetFileBad stream may be 0 here: "assert self.stream" then fails inside the
-          \* configure hook, the addon manager logs it (safecall) and the caller sees a successful option change
+     THEN \* nothing is reopened.  (~OpenFirst only: after SetFileBad stream may be 0 here; "assert self.stream" then
+          \* fails inside the configure hook, the addon manager logs it and the caller sees a successful option change)
           /\ UNCHANGED <<stream, curPath, files>>
           /\ Emit(<<[k |-> "setfile", path |-> p, append |-> app, new |-> <<>>, trunc |-> FALSE]>>)
      ELSE /\ stream' = p /\ curPath' = p                 \* closes the old stream, opens p with mode "ab" / "wb"
@@ -65,10 +65,10 @@ SetFile(p, app) ==
                      trunc |-> ~app /\ files[p] = "nonempty"]>>)
   /\ UNCHANGED <<filt, active, finished>> /\ UNCHANGED facts
 
-\* configure({"save_stream_file"}) with a path that cannot be opened: maybe_rotate_to_new_file() closes and drops the
-\* old stream BEFORE the failing open; OptionsError; the option manager rolls the option back and re-runs configure,
-\* where current_path (never reset) still equals the old path, so nothing is reopened: stream stays None while the
-\* option says saving is on
+\* configure({"save_stream_file"}) with a path that cannot be opened: OSError -> OptionsError, the option manager rolls
+\* the option back and re-runs configure (current_path unchanged: nothing to do).  With OpenFirst nothing changes.
+\* Before e93d632de maybe_rotate_to_new_file() closed and dropped the old stream BEFORE the failing open, so stream
+\* stayed None while the option (rolled back) and current_path said saving was on
 SetFileBad ==
   /\ Live /\ BadPaths /\ cfg < MaxCfg /\ cfg' = cfg + 1
   /\ stream' = IF OpenFirst THEN stream ELSE 0
